@@ -39,7 +39,7 @@ LEVEL_TEXT = (
 LEVEL_NOTE = (
     "Trusted: ref/cookies.py (self-tested with hand-checked vectors), yarl URL parsing, the virtual time seam. "
     "Bounds: 9 hosts x 5 request paths x 4 schemes, 3 cookie names, <= 12 operations per history, <= 3 Set-Cookie "
-    "headers per response. filter_cookies returns a name-keyed mapping, so for several same-name cookies that the "
+    "headers per response that set a cookie plus <= 4 that are ignored as a whole. filter_cookies returns a name-keyed mapping, so for several same-name cookies that the "
     "RFC would all send, any one of them is accepted. The ClientSession sample uses plain http only (TLS is not "
     "simulated)."
 )
@@ -52,15 +52,20 @@ RULE = (
     "instant} x jar configuration (unsafe, quote_cookie, treat_as_secure_origin); after an operation 0..6 query "
     "URLs (biased to the hosts in use and their parent/child/lookalike hosts) and a final query set are compared "
     "with the reference. About one history in six also uses one kind of off-lattice spelling (upper-case Domain, "
-    "Max-Age that is not [-]digits, Path ending in '//', Expires dates outside the three HTTP formats); 2% end "
-    "with real ClientSession requests through the simulated network. 21 directed histories run first. "
+    "Max-Age that is not [-]digits, Path ending in '//', Expires dates outside the three HTTP formats). In 12% of histories some responses also carry, before / between / "
+    "after their Set-Cookie fields, one or two fields that are ignored as a whole (name-value pair without '=' or "
+    "without a name, empty field, cookie-name that is an attribute name - bare Secure/HttpOnly, domain=, path=, "
+    "max-age=, expires=, ... - each followed by 0-2 ordinary attributes): they must change nothing. 2% end "
+    "with real ClientSession requests through the simulated network (the first response sets one cookie, in 40% of "
+    "them next to an ignored field). 23 directed histories run first. "
     "Non-trivial: the reference both attached a cookie to some query and withheld a live "
     "cookie from some query (scoping mattered). Distinct = sequence of operation classes (kind, host-only/domain, "
     "expiry class, acceptance)."
 )
-ENUM_RULE = ("21 hand-written minimal histories, one per scoping rule (host-only, domain, lookalike host, cross-site set, "
+ENUM_RULE = ("23 hand-written minimal histories, one per scoping rule (host-only, domain, lookalike host, cross-site set, "
              "Secure, treat_as_secure_origin, path-match, IP hosts, Expires/Max-Age, delete, clear_domain, shared cookies, "
-             "save/load) and one per finding of round 1, each judged on the full 9x5x2 query lattice")
+             "save/load), one per finding of round 1 and two responses mixing Set-Cookie fields that are ignored as a "
+             "whole with fields that set cookies, each judged on the full 9x5x2 query lattice")
 ENUM_IS_EXHAUSTIVE = False
 COMPONENTS = {
     "real": ["aiohttp.cookiejar.CookieJar", "aiohttp._cookie_helpers.parse_set_cookie_headers", "yarl.URL",
@@ -71,7 +76,10 @@ ASSUMPTIONS = [
     "a cookie is expired when its expiry-time <= now (RFC 6265 says 'in the past'; a Max-Age=N cookie has lived N s)",
     "documented aiohttp deviations are configuration of the reference: IP-literal hosts are refused/ignored unless "
     "unsafe=True; no public-suffix list; cookies added without a response URL are 'shared' (sent with every "
-    "request); a Domain attribute ending in '.' is ignored (tested behaviour); save() persists session cookies",
+    "request); a Domain attribute ending in '.' is ignored (tested behaviour); save() persists session cookies; a "
+    "Set-Cookie whose cookie-name is the name of a cookie attribute (path, domain, max-age, expires, secure, httponly, "
+    "samesite, partitioned, version, comment) is ignored as a whole (tested behaviour, tests/test_cookie_helpers.py; "
+    "RFC 6265 would store a cookie of that name)",
     "filter_cookies returns a mapping keyed by name: of several same-name cookies the RFC would send, any one is accepted",
     "before a backward wall-clock jump an observation is forced, so both stores have evicted what had expired",
 ]
@@ -255,10 +263,80 @@ def _gen_expires(rng, t_approx, extras):
 
 
 def render(spec) -> str:
-    s = f"{spec['n']}={spec['v']}"
+    s = spec["n"] if spec["v"] is None else f"{spec['n']}={spec['v']}"
     for a, v in spec["a"]:
         s += f"; {a}" if v is None else f"; {a}={v}"
     return s
+
+
+IGNORED_FORMS = ["domain", "domain", "path", "path", "max-age", "expires", "flag", "flag", "other",
+                 "no_equals", "no_equals", "no_name", "empty"]
+
+
+def _gen_ignored_field(rng, hi, names, t_approx, tag):
+    """A Set-Cookie field value that is ignored as a whole (it stores nothing and changes nothing): its
+    name-value pair has no '=' or no name (RFC 6265 5.2 steps 2 and 5), or its cookie-name is the name of a
+    cookie attribute (aiohttp's tested refusal, Config.reserved_names_refused).  What follows the first
+    ';' are ordinary attributes from the lattice - which must stay without effect.  {"ign": form} marks the
+    spec; "t" is its tag for the oracle's book-keeping (nothing on the wire is unique to it)."""
+    form = rng.choice(IGNORED_FORMS)
+    cap = rng.choice([str, str, str.title, str.upper])
+    if form == "domain":
+        n, v = cap("domain"), rng.choice(_domain_choices(hi, None))
+    elif form == "path":
+        n, v = cap("path"), rng.choice(["/", "/", "/p", "/p/q", "/pq"])
+    elif form == "max-age":
+        n, v = cap("max-age"), rng.choice(["0", "0", "-1", "5", "3600"])
+    elif form == "expires":
+        n, v = cap("expires"), _gen_expires(rng, t_approx, None)
+    elif form == "flag":
+        n, v = cap(rng.choice(["secure", "secure", "httponly", "partitioned"])), None
+    elif form == "other":
+        n, v = rng.choice([("SameSite", "Lax"), ("samesite", "None"), ("Version", "1"), ("comment", "x")])
+    elif form == "no_equals":
+        n, v = rng.choice(list(names) + ["x"]), None
+    elif form == "no_name":
+        n, v = "", tag
+    else:
+        n, v = "", None
+    attrs = []
+    if form != "empty":
+        for _ in range(rng.choice([0, 1, 1, 2])):
+            a = rng.choice(["Domain", "Path", "Secure", "Max-Age"])
+            if a == "Domain":
+                attrs.append([a, rng.choice(_domain_choices(hi, None))])
+            elif a == "Path":
+                attrs.append([a, rng.choice(["/", "/p", "/p/", "/p/q", "/pq"])])
+            elif a == "Secure":
+                attrs.append([a, None])
+            else:
+                attrs.append([a, rng.choice(["0", "-1", "5", "3600"])])
+    return {"n": n, "v": v, "a": attrs, "t": tag, "ign": form}
+
+
+def _add_ignored_fields(rng, scn, names):
+    """Post-pass of gen() (all its draws come after every other draw of the scenario, so the rest of the
+    scenario is what it would have been): some responses carry, between / before / after their Set-Cookie
+    fields, one or two fields that are ignored as a whole."""
+    sets = [op for op in scn["ops"] if op["k"] == "set"]
+    if not sets:
+        return
+    chosen = [op for op in sets if rng.random() < 0.5] or [rng.choice(sets)]
+    k = 0
+    t = 0.0
+    for op in scn["ops"]:
+        if op["k"] in ("adv", "jump"):
+            t += op["dt"]
+        elif op["k"] == "toexp":
+            t += 3
+        if not any(op is o for o in chosen):
+            continue
+        for _ in range(rng.choice([1, 1, 1, 2])):
+            k += 1
+            spec = _gen_ignored_field(rng, op["u"][1], names, t, f"ign{k}")
+            # mostly after a field that does set a cookie
+            pos = rng.randint(1, len(op["c"])) if rng.random() < 0.8 else rng.randint(0, len(op["c"]))
+            op["c"] = op["c"][:pos] + [spec] + op["c"][pos:]
 
 
 def _gen_queries(rng, used, k):
@@ -385,6 +463,13 @@ def gen(rng, tier, index):
         ws = _gen_cookie(rng, scn["wire"][0][0], names, t, [counter[0] + 100], None, simple=True)
         ws["a"] = [a for a in ws["a"] if a[0].lower() != "max-age"]  # arrival time of the response is not exact
         scn["wire_set"] = ws
+    # --- features added later: drawn last, so that a scenario without them is the scenario it was before
+    if rng.random() < 0.12:
+        _add_ignored_fields(rng, scn, names)
+    if scn.get("wire_set") and rng.random() < 0.4:
+        # the real response carries a second Set-Cookie field, one that is ignored as a whole
+        j = _gen_ignored_field(rng, scn["wire"][0][0], names, t, "ignw")
+        scn["wire_ignored"] = {"spec": j, "first": rng.random() < 0.2}
     return scn
 
 
@@ -397,6 +482,12 @@ def _set(hi, path, *cookies, scheme=0, q=None):
 
 def _ck(n, v, *attrs):
     return {"n": n, "v": v, "a": [[a[0], a[1] if len(a) > 1 else None] for a in attrs]}
+
+
+def _ig(tag, n, v, *attrs):
+    form = ("empty" if v is None else "no_name") if not n else "no_equals" if n.lower() not in R.RESERVED_NAMES \
+        else "flag" if v is None else n.lower()
+    return {"n": n, "v": v, "a": [[a[0], a[1] if len(a) > 1 else None] for a in attrs], "t": tag, "ign": form}
 
 
 def enumerate_cases(tier, seed):
@@ -451,6 +542,20 @@ def enumerate_cases(tier, seed):
     yield scn([_set(0, "/", _ck("a", "v1", ["Max-Age", "abc"], ["Expires", fmt_date(int(EPOCH0) - 60, 0)]))])
     yield scn([_set(0, "/", _ck("a", "v1", ["Expires", fmt_date(int(EPOCH0) - 60, 6)]))])
     yield scn([_set(0, "/", _ck("a", "v1", ["Path", "/p//"]))])
+    # a response whose Set-Cookie fields are partly ignored as a whole (no '=', no name, empty, cookie-name that
+    # is an attribute name): the fields around them mean what they mean alone
+    yield scn([_set(1, "/p/x", _ig("ign1", "Secure", None), _ck("a", "v1"), _ig("ign2", "secure", None, ["Path", "/"]),
+                    _ck("b", "v2", ["Path", "/p"], ["Domain", "sub.example.com"]),
+                    _ig("ign3", "path", "/", ["Max-Age", "0"]), _ig("ign4", "", "ign4", ["Domain", "example.com"]),
+                    _ck("sid", "v3", ["Max-Age", "60"]), _ig("ign5", "Domain", "example.com", ["Path", "/"]),
+                    _ig("ign6", "sid", None, ["Domain", "example.com"]), _ig("ign7", "", None)),
+               {"k": "adv", "dt": 5}, {"k": "reload"}])
+    yield scn([_set(0, "/", _ck("a", "v1", ["Secure"], ["Domain", "example.com"]), scheme=1),
+               _set(1, "/p/q", _ck("a", "v2", ["Expires", fmt_date(int(EPOCH0) + 60, 0)]), _ig("ign1", "max-age", "0"),
+                    _ig("ign2", "Expires", fmt_date(int(EPOCH0) - 60, 0), ["Domain", "example.com"]),
+                    _ck("b", "v3", ["Domain", "example.com"]), _ig("ign3", "HttpOnly", None, ["Secure"]),
+                    _ig("ign4", "SameSite", "Lax", ["Path", "/p/q"]), scheme=1),
+               {"k": "adv", "dt": 10}])
 
 
 def shrink(scn):
@@ -459,6 +564,16 @@ def shrink(scn):
     if scn.get("wire"):
         c = dict(scn)
         c["wire"] = []
+        yield c
+        if scn.get("wire_ignored"):
+            c = dict(scn)
+            del c["wire_ignored"]
+            yield c
+    if sum(1 for op in ops for spec in op.get("c", ()) if spec.get("ign")) > 1:
+        # every field that is ignored as a whole, at once
+        c = dict(scn)
+        c["ops"] = [dict(op, c=[spec for spec in op["c"] if not spec.get("ign")]) if op.get("c") else op for op in ops]
+        c["ops"] = [op for op in c["ops"] if op.get("c") or op["k"] not in ("set", "api")]
         yield c
     size = n // 2
     while size >= 1:
@@ -588,7 +703,7 @@ def run(scn, ch, log=False):
             sch, rest = o.split("://", 1)
             host, _, port = rest.partition(":")
             sec_origins.append((sch, host, int(port) if port else R.DEFAULT_PORTS[sch]))
-    ref = R.Store(R.Config(unsafe=cfg["unsafe"], secure_origins=sec_origins))
+    ref = R.Store(R.Config(unsafe=cfg["unsafe"], secure_origins=sec_origins, reserved_names_refused=True))
 
     with World(ch, scn.get("seed", 0), log_events=log) as w:
         loop = w.loop
@@ -613,7 +728,9 @@ def run(scn, ch, log=False):
                 ws = scn.get("wire_set")
                 lines.append("  then ClientSession(cookie_jar=jar) GET "
                              + ", ".join(f"http://{HOSTS[h]}{PATHS[p]}" for h, p in scn["wire"])
-                             + (f"; first response carries Set-Cookie: {render(ws)}" if ws else ""))
+                             + (f"; first response carries Set-Cookie: {render(ws)}" if ws else "")
+                             + (f" and ({'before' if scn['wire_ignored']['first'] else 'after'} it) Set-Cookie: "
+                                f"{render(scn['wire_ignored']['spec'])}" if ws and scn.get("wire_ignored") else ""))
             return "\n".join(lines)
 
         def violate(inv, key, msg, fam=None):
@@ -679,8 +796,10 @@ def run(scn, ch, log=False):
 
         def oversend_key(c, fate, why):
             """why: first failing test of 5.4 for a live cookie, or None."""
-            if fate is None or c is None:
+            if fate is None:
                 return "unknown_value"
+            if c is None:  # a Set-Cookie string that is ignored as a whole leaves no cookie behind
+                return fate.split(":", 1)[1] if fate.startswith("rejected:") else "unknown_value"
             if fate.startswith("rejected:"):
                 key = fate.split(":", 1)[1]
             elif fate in ("expired", "replaced", "cleared"):
@@ -829,10 +948,23 @@ def run(scn, ch, log=False):
             url = _url(u[0], u[1], u[2]) if u else None
             hdrs = [render(c) for c in op["c"]]
             cls = []
+            cookie_before = False
             for spec, hdr in zip(op["c"], hdrs):
                 tag = spec.get("t", spec["v"])
                 info[tag] = {"op": opi, "hdr": hdr, "host": host}
                 c = ref.set_from_header(hdr, host, rpath, t_now, tag)
+                if spec.get("ign"):
+                    if c is not None:
+                        raise RuntimeError(f"C16: the reference stored a cookie for the ignored field {hdr!r} (harness)")
+                    probe("ignored_field")
+                    probe("ignored_field_" + spec["ign"])
+                    if cookie_before:
+                        probe("ignored_field_after_cookie_field")
+                    if spec["v"] is not None:
+                        val_tags.setdefault(spec["v"], []).append(tag)
+                    cls.append("ign")
+                    continue
+                cookie_before = True
                 if c is not None:
                     # a value is carried by several tags only when a cookie is issued again (gen), i.e. under one
                     # (domain, path, name); a history where they differ (the shrinker can make one) is ambiguous
@@ -981,7 +1113,7 @@ def run(scn, ch, log=False):
             del viols[:]
             nontrivial = False
             probe("ambiguous_history_not_judged")
-        if len(val_tags) < sum(len(v_) for v_ in val_tags.values()):
+        if any(sum(1 for t_ in v_ if not t_.startswith("ign")) > 1 for v_ in val_tags.values()):
             probe("reissued_same_value")
         if nontrivial:
             probe("nontrivial")
@@ -1032,7 +1164,8 @@ class _CookieServer:
             self.seen.append((req["target"].decode("latin-1"), cookies))
             extra = b""
             if self.set_cookie:
-                extra = b"Set-Cookie: " + self.set_cookie.encode("latin-1") + b"\r\n"
+                for f in self.set_cookie:
+                    extra += b"Set-Cookie: " + f.encode("latin-1") + b"\r\n"
                 self.set_cookie = None  # only the first response sets it
             conn.send(b"HTTP/1.1 200 OK\r\nContent-Length: 0\r\n" + extra + b"\r\n")
 
@@ -1046,7 +1179,11 @@ def _wire_sample(w, scn, state, ref, now, info, register, violate, probe):
     jar = state["jar"]
     spec = scn.get("wire_set")
     hdr = render(spec) if spec else None
-    srv = _CookieServer(loop, hdr)
+    fields = [hdr] if hdr is not None else []
+    ign = scn.get("wire_ignored") if fields else None
+    if ign:  # a Set-Cookie field that is ignored as a whole, before or after the one that sets a cookie
+        fields.insert(0 if ign["first"] else 1, render(ign["spec"]))
+    srv = _CookieServer(loop, fields)
     net.listen(lambda: RawServerConn(srv), "0.0.0.0", 80)
     results = []
 
@@ -1067,6 +1204,8 @@ def _wire_sample(w, scn, state, ref, now, info, register, violate, probe):
                     c = ref.set_from_header(hdr, REF_HOSTS[h], PATHS[p], t_set, spec["v"])
                     if c is not None:
                         register(c, spec["v"], hdr, len(scn["ops"]))
+                    if ign:
+                        ref.set_from_header(render(ign["spec"]), REF_HOSTS[h], PATHS[p], t_set, ign["spec"]["t"])
 
     task = loop.run_sim(client(), vt_cap=loop.time() + 30.0, step_cap=loop.steps + 20000)
     if not task.done():
@@ -1099,6 +1238,8 @@ def _wire_sample(w, scn, state, ref, now, info, register, violate, probe):
             probe("wire_cookie_sent")
     if hdr is not None:
         probe("wire_set_cookie")
+    if ign:
+        probe("wire_ignored_field")
 
 
 def oracle_selftest():
